@@ -21,13 +21,16 @@ TICK = 8          # VM instructions between scheduling points
 ROWS = {"r1": ("m1", "my_func"), "r2": ("m1", "myXfunc"), "r3": ("m1", "MY_FUNC"), "r4": ("m1", "Foo.bar"),
         "r5": ("m1", "foo"), "r6": ("m2", "my_func"), "r7": ("m1", "a%b"), "r8": ("m1", "aXb"),
         # same module and qualname as r1, differing in ONE other column only (yield / return / argument types)
-        "r9": ("m1", "my_func"), "r10": ("m1", "my_func"), "r11": ("m1", "my_func")}
-BATCHES = {"b1": (["r1", "r2"], 0), "b2": (["r3", "r5", "r1"], 1), "b3": (["r4", "r6", "r9"], 0), "b4": (["r7", "r8", "r10"], 1),
+        "r9": ("m1", "my_func"), "r10": ("m1", "my_func"), "r11": ("m1", "my_func"),
+        # the dotted path module + "." + qualname is the same for both, module and qualname are not
+        "r12": ("m1.sub", "area"), "r13": ("m1", "sub.area")}
+BATCHES = {"b1": (["r1", "r2"], 0), "b2": (["r3", "r5", "r1"], 1), "b3": (["r4", "r6", "r9", "r12", "r13"], 0), "b4": (["r7", "r8", "r10"], 1),
            "b5": ([], 2), "b6": (["r11", "r9"], 0)}
 
 
 PREFIXES = [None, "my_func", "my", "foo", "Foo.", "a%", "a_", "MY_", "myX", "f", "Foo.bar", "my_funcs"]
-QUERIES = [(m, p, n) for m in ("m1", "m2") for p in PREFIXES for n in (1, 2, 2000)]
+QUERIES = [(m, p, n) for m in ("m1", "m2") for p in PREFIXES for n in (1, 2, 2000)] + \
+          [(m, p, n) for m in ("m1.sub", "m1") for p in (None, "sub", "sub.", "area", "sub.area") for n in (1, 2000)]
 
 
 def _code():
@@ -288,18 +291,29 @@ def run_behaviour(sc):
         for cn in conns.values():
             cn.close()
         events.append(check_event(dbpath))
+        # the same database on a later day: half of the rows (duplicates of one trace among them) were recorded on
+        # earlier days.  Only created_at changes; what the store contains - and must return - does not.
+        bd = sqlite3.connect(dbpath, timeout=2)
+        try:
+            bd.execute("UPDATE monkeytype_call_traces SET created_at = datetime(created_at, '-' || (rowid % 3) || ' days') "
+                       "WHERE rowid % 3 != 0")
+            bd.commit()
+        finally:
+            bd.close()
+        events.append(check_event(dbpath))
         fresh = Conn(ctx, dbpath)
         msg = fresh.call("modules")
         if msg[0] != "mods":
             events.append({"ev": "QueryFailed", "c": "fresh", "op": "list_modules", "err": str(msg[1])[:80]})
         else:
             events.append({"ev": "Modules", "c": "fresh", "res": list(msg[1])})
-        for m in ("m1", "m2"):
-            msg = fresh.call("filter", m, None, 2000)
+        for m, p, n in [(m, None, 2000) for m in ("m1", "m2", "m1.sub")] + [("m1", "my_func", 2), ("m1", "my_func", 3), ("m1", None, 4)]:
+            msg = fresh.call("filter", m, p, n)
             if msg[0] != "rows":
                 events.append({"ev": "QueryFailed", "c": "fresh", "op": "filter", "err": str(msg[1])[:80]})
             else:
-                events.append({"ev": "Filter", "c": "fresh", "m": m, "p": [0], "n": 2000, "res": [row_abs(*r) for r in msg[1]]})
+                events.append({"ev": "Filter", "c": "fresh", "m": m, "p": [0] if p is None else [ord(ch) for ch in p], "n": n,
+                               "res": [row_abs(*r) for r in msg[1]]})
         fresh.close()
     finally:
         for cn in conns.values():
